@@ -32,6 +32,10 @@ CHECKS = {
          "Values up to depth 4 over boundary ints, finite floats, adversarial strings, (), arrays and tuples are built through public constructors, rendered and parsed back both as value literal and as program; content, ==, and type must be preserved. Integer literals in four radixes with underscores up to 2^65 must denote their value or be rejected as too big.",
          "Trusts the harness's JSON model of values and Rust's float formatting being shortest-round-trip.",
          "DESIGN.md section 3, C20"),
+ "C14": ("exhaustive enumeration of operator pairs/triples and hand-written templates; metamorphic oracle: unparenthesised text == table-prescribed fully parenthesised text, with operand search for distinguishing values",
+         "All 361 ordered pairs and 6859 triples of the 19 infix operators plus ~330 templates (prefix/postfix/iterator-level/assignment/tokenisation); for each, operands are searched so that the table's grouping is distinguished from the other groupings, then the bare text (spaced and unspaced) must agree with the table's grouping.",
+         "Both sides are evaluated by the implementation (parentheses are trusted to group); chains whose groupings cannot be distinguished are counted, not claimed.",
+         "DESIGN.md section 3, C14"),
 }
 PENDING = {}
 props = [json.loads(l) for l in open(os.path.join(ROOT, "properties.jsonl"))]
